@@ -635,3 +635,243 @@ Section Fixed3.
         apply raw_get_h_set_other; [reflexivity | assumption].
   Qed.
 End Fixed3.
+
+(* ---------- the Content-Length clause and the refusal clause ---------- *)
+Lemma cl_scan_sound toks : forall len len', cl_scan len toks = Some len' ->
+  (is_empty len = false -> len' = len /\ forall t, In t toks -> trim_space t = len) /\
+  (is_empty len = true -> forall t, In t toks -> is_empty (trim_space t) = true \/ trim_space t = len').
+Proof.
+  induction toks as [|t r IH]; intros len len' H.
+  - cbn in H. injection H as <-. split; [intros _; split; [reflexivity | intros ? []] | intros _ ? []].
+  - cbn [cl_scan] in H. destruct (is_empty len) eqn:E.
+    + split; [discriminate|]. intros _ t' [<-|Hin].
+      * destruct (IH _ _ H) as [A B]. destruct (is_empty (trim_space t)) eqn:E2; [left; reflexivity|].
+        right. destruct (A eq_refl) as [-> _]. reflexivity.
+      * destruct (IH _ _ H) as [A B]. destruct (is_empty (trim_space t)) eqn:E2.
+        -- apply (B eq_refl). exact Hin.
+        -- right. destruct (A eq_refl) as [-> A2]. apply A2. exact Hin.
+    + destruct (str_eqb len (trim_space t)) eqn:E2; [|discriminate].
+      apply str_eqb_eq in E2. destruct (IH _ _ H) as [A _]. destruct (A E) as [-> A2].
+      split; [|discriminate]. intros _. split; [reflexivity|]. intros t' [<-|Hin]; [symmetry; exact E2 | apply A2; exact Hin].
+Qed.
+
+Lemma cl_ok_of_scan toks v : cl_scan [] toks = Some v ->
+  forallb (fun t => is_empty (trim_space t) || str_eqb (trim_space t) v) toks = true.
+Proof.
+  intro H. destruct (cl_scan_sound toks [] v H) as [_ B]. apply forallb_forall. intros t Hin.
+  destruct (B eq_refl t Hin) as [E|E]; [rewrite E; reflexivity|]. rewrite E, str_eqb_refl. apply orb_true_r.
+Qed.
+
+Section Master.
+  Hypothesis Hhop : hop_by_hop_headers = spec_hop_list.
+  Hypothesis Hflat : flat_stack = fixed_flat_stack.
+  Hypothesis Hxff : xff_reads_all_lines = true.
+  Hypothesis Hfill : xfwd_fill_reads_all_lines = true.
+  Hypothesis Hvia : via_reads_all_lines = true.
+  Hypothesis Hst : via_loop_status = 400.
+  Hypothesis Hcl : via_sets_close = true.
+  Hypothesis Hsep : via_join_sep = comma_sp.
+  Hypothesis Hproto : proto_table_ok = true.
+  Hypothesis Hstatus : status_of_error_status via_loop_status = 400.
+
+  Let r2_of (r : mreq) := forwarded_gen2 true true (set_hdr r (remove_hop_by_hop (q_hdr r))).
+
+  (* names the forwarded modifier does not touch in this request *)
+  Lemma r2_get r k : (mem k fwd_keys = false \/ str_eqb (q_method r) m_connect = true) ->
+    raw_get k (q_hdr (r2_of r)) = raw_get k (after_removal (q_hdr r)).
+  Proof.
+    intros [Hk|Hm]; unfold r2_of.
+    - rewrite forwarded_others by exact Hk. cbn [q_hdr set_hdr]. apply (hbh_is_after_removal Hhop).
+    - unfold forwarded_gen2. cbn [q_method set_hdr]. rewrite Hm. cbn [q_hdr set_hdr]. apply (hbh_is_after_removal Hhop).
+  Qed.
+
+  Lemma after_removal_get h k : raw_get k (after_removal h) = if is_removed k h then None else raw_get k h.
+  Proof.
+    unfold after_removal. rewrite (raw_get_filter_key (fun k => negb (is_removed k h))). destruct (is_removed k h); reflexivity.
+  Qed.
+
+  Lemma te_gone r : raw_values k_te (q_hdr (r2_of r)) = [].
+  Proof.
+    unfold raw_values. rewrite r2_get by (left; reflexivity). rewrite after_removal_get.
+    rewrite is_removed_listed by reflexivity. reflexivity.
+  Qed.
+
+  (* bad framing, given that Transfer-Encoding is already gone *)
+  Lemma framing_cases h : raw_values k_te h = [] ->
+    match raw_values k_cl h with
+    | [] => bad_framing h = Some h
+    | vs => match cl_scan [] (flat_map (split_byte 44) vs) with
+            | Some len => bad_framing h = Some (h_set k_cl len h)
+            | None => bad_framing h = None
+            end
+    end.
+  Proof.
+    intro Hte. unfold bad_framing. destruct (raw_values k_cl h) as [|v vs] eqn:E.
+    - rewrite Hte. reflexivity.
+    - destruct (cl_scan [] _) as [len|]; [|reflexivity].
+      assert (T : raw_values k_te (h_set k_cl len h) = []).
+      { unfold raw_values. rewrite raw_get_h_set_other by (try reflexivity; discriminate). exact Hte. }
+      rewrite T. reflexivity.
+  Qed.
+
+  Definition result_of (o : outcome) : sres :=
+    match o with Refused st => SRefused st | Passed r => SPassed (q_close r) (q_hdr r) end.
+
+  Lemma pipeline_refused tag r st : tag_ok tag = true -> pipeline tag r = Refused st ->
+    (own_sub tag (raw_values via_key (after_removal (q_hdr r))) = true /\ st = 400) \/
+    (framing_contradictory (after_removal (q_hdr r)) = true /\ st = 500).
+  Proof.
+    intros Ht. unfold pipeline. cbn zeta. fold (r2_of r).
+    pose proof (framing_cases (q_hdr (r2_of r)) (te_gone r)) as FC.
+    assert (CL : raw_values k_cl (q_hdr (r2_of r)) = raw_values k_cl (after_removal (q_hdr r))).
+    { unfold raw_values. rewrite r2_get by (left; reflexivity). reflexivity. }
+    rewrite CL in FC. unfold framing_contradictory.
+    destruct (raw_values k_cl (after_removal (q_hdr r))) as [|v vs] eqn:E.
+    - rewrite FC.
+      destruct (via_modify_gen true tag _ _ (q_hdr (r2_of r))) as [s c|h4] eqn:Ev; [|discriminate].
+      intro H. injection H as <-. left.
+      apply (refused_only_own 400 true Hst Hcl Hsep) in Ev as [Ho [-> _]]; [|exact Ht].
+      rewrite h_values_raw in Ho by reflexivity. unfold raw_values in Ho |- *.
+      rewrite r2_get in Ho by (left; reflexivity). split; [exact Ho|]. rewrite <- Hst. exact Hstatus.
+    - destruct (cl_scan [] (flat_map (split_byte 44) (v :: vs))) as [len|] eqn:Es.
+      + rewrite FC.
+        destruct (via_modify_gen true tag _ _ (h_set k_cl len (q_hdr (r2_of r)))) as [s c|h4] eqn:Ev; [|discriminate].
+        intro H. injection H as <-. left.
+        apply (refused_only_own 400 true Hst Hcl Hsep) in Ev as [Ho [-> _]]; [|exact Ht].
+        rewrite h_values_raw in Ho by reflexivity. unfold raw_values in Ho |- *.
+        rewrite raw_get_h_set_other in Ho by (try reflexivity; discriminate).
+        rewrite r2_get in Ho by (left; reflexivity). split; [exact Ho|]. rewrite <- Hst. exact Hstatus.
+      + rewrite FC. intro H. injection H as <-. right. split; reflexivity.
+  Qed.
+End Master.
+
+(* ---------- the stack satisfies the property predicate, for every request ---------- *)
+Lemma some_nonempty_concat vs : some_nonempty vs = negb (is_empty (concat vs)).
+Proof.
+  induction vs as [|v r IH]; [reflexivity|]. cbn [some_nonempty existsb concat].
+  destruct v as [|c v]; cbn [is_empty negb orb app]; [exact IH | reflexivity].
+Qed.
+
+Lemma fill_ok_of c recv :
+  fill_ok c recv (if is_empty (concat (match recv with Some vs => vs | None => [] end)) then Some [c] else recv) = true.
+Proof.
+  destruct recv as [vs|]; cbn [fill_ok].
+  - rewrite some_nonempty_concat. destruct (is_empty (concat vs)); cbn [negb].
+    + apply orb_true_iff. left. apply opt_vals_eqb_eq. reflexivity.
+    + apply opt_vals_eqb_eq. reflexivity.
+  - cbn [concat is_empty]. apply opt_vals_eqb_eq. reflexivity.
+Qed.
+
+Section Master2.
+  Hypothesis Hhop : hop_by_hop_headers = spec_hop_list.
+  Hypothesis Hflat : flat_stack = fixed_flat_stack.
+  Hypothesis Hxff : xff_reads_all_lines = true.
+  Hypothesis Hfill : xfwd_fill_reads_all_lines = true.
+  Hypothesis Hvia : via_reads_all_lines = true.
+  Hypothesis Hst : via_loop_status = 400.
+  Hypothesis Hcl : via_sets_close = true.
+  Hypothesis Hsep : via_join_sep = comma_sp.
+  Hypothesis Hproto : proto_table_ok = true.
+  Hypothesis Hstatus : status_of_error_status via_loop_status = 400.
+
+  Let MP := modify_request_is_pipeline Hflat Hxff Hfill Hvia.
+
+  Lemma key_ok_all tag r r' k :
+    tag_ok tag = true -> q_maj r < 10 -> q_min r < 10 ->
+    (str_eqb (q_method r) m_connect = true \/ tag_ok (client_ip r) = true) ->
+    modify_request tag r = Passed r' -> key_ok tag r (q_hdr r') k = true.
+  Proof.
+    intros Ht Hm Hn Hip H.
+    destruct (via_xff_appended Hhop Hflat Hxff Hfill Hvia Hst Hcl Hsep Hproto tag r r' Ht Hm Hn H) as [V1 [V2 V3]].
+    pose proof (user_agent Hhop Hflat Hxff Hfill Hvia tag r r' H) as UA.
+    pose proof H as Hp. rewrite MP in Hp.
+    destruct (pipeline_passed tag r r' Hp) as [h3 [h4 [Hf [Hv Er]]]].
+    assert (OUT : forall k, k <> k_ua -> k <> via_key -> raw_get k (q_hdr r') = raw_get k h3).
+    { intros k0 A B. rewrite Er. cbn [q_hdr set_hdr]. rewrite ua_spec. apply str_eqb_neq in A. rewrite A.
+      apply (via_others true tag _ _ h3 h4 k0 Hv). exact B. }
+    unfold key_ok. cbv zeta.
+    destruct (str_eqb k via_key) eqn:E1.
+    { apply str_eqb_eq in E1. subst k. rewrite V2. cbn [negb andb]. apply list_str_eqb_eq. exact V1. }
+    apply str_eqb_neq in E1.
+    destruct (str_eqb (q_method r) m_connect) eqn:Hc; cbn [negb andb]; rewrite ?andb_false_r, ?andb_true_r.
+    - (* CONNECT: the forwarded modifier does nothing *)
+      destruct (str_eqb k k_ua) eqn:E6.
+      { apply str_eqb_eq in E6. subst k. rewrite UA. destruct (raw_get k_ua (after_removal (q_hdr r))) as [vs|].
+        - apply opt_vals_eqb_eq. reflexivity.
+        - apply orb_true_iff. right. apply opt_vals_eqb_eq. reflexivity. }
+      apply str_eqb_neq in E6.
+      destruct (str_eqb k k_cl) eqn:E7.
+      { apply str_eqb_eq in E7. subst k. rewrite (OUT k_cl) by assumption.
+        pose proof (framing_cases _ (te_gone Hhop r)) as FC.
+        assert (CLv : raw_get k_cl (q_hdr (forwarded_gen2 true true (set_hdr r (remove_hop_by_hop (q_hdr r))))) =
+                      raw_get k_cl (after_removal (q_hdr r))) by (apply (r2_get Hhop); left; reflexivity).
+        unfold raw_values in FC. rewrite CLv in FC.
+        destruct (raw_get k_cl (after_removal (q_hdr r))) as [[|v vs]|] eqn:E.
+        - rewrite FC in Hf. injection Hf as <-. rewrite CLv. apply opt_vals_eqb_eq. reflexivity.
+        - destruct (cl_scan [] (flat_map (split_byte 44) (v :: vs))) as [len|] eqn:Es.
+          + rewrite FC in Hf. injection Hf as <-. rewrite raw_get_h_set_same by reflexivity.
+            apply cl_ok_of_scan. exact Es.
+          + rewrite FC in Hf. discriminate.
+        - rewrite FC in Hf. injection Hf as <-. rewrite CLv. apply opt_vals_eqb_eq. reflexivity. }
+      apply str_eqb_neq in E7.
+      rewrite (OUT k) by assumption. rewrite (framing_others _ h3 k Hf) by assumption.
+      rewrite (r2_get Hhop) by (right; exact Hc). rewrite (after_removal_get).
+      destruct (is_removed k (q_hdr r)); apply opt_vals_eqb_eq; reflexivity.
+    - destruct Hip as [Hip|Hip]; [congruence|].
+      destruct (str_eqb k k_xff) eqn:E2.
+      { apply str_eqb_eq in E2. subst k. apply list_str_eqb_eq. apply V3; [reflexivity | exact Hip]. }
+      apply str_eqb_neq in E2.
+      destruct (forwarded_filled Hhop Hflat Hxff Hfill Hvia tag r r' H Hc) as [F1 [F2 F3]].
+      destruct (str_eqb k k_xfp) eqn:E3.
+      { apply str_eqb_eq in E3. subst k. rewrite F1. unfold raw_values. apply fill_ok_of. }
+      apply str_eqb_neq in E3.
+      destruct (str_eqb k k_xfh) eqn:E4.
+      { apply str_eqb_eq in E4. subst k. rewrite F2. unfold raw_values. apply fill_ok_of. }
+      apply str_eqb_neq in E4.
+      destruct (str_eqb k k_xfu) eqn:E5.
+      { apply str_eqb_eq in E5. subst k. rewrite F3. unfold raw_values. apply fill_ok_of. }
+      apply str_eqb_neq in E5.
+      destruct (str_eqb k k_ua) eqn:E6.
+      { apply str_eqb_eq in E6. subst k. rewrite UA. destruct (raw_get k_ua (after_removal (q_hdr r))) as [vs|].
+        - apply opt_vals_eqb_eq. reflexivity.
+        - apply orb_true_iff. right. apply opt_vals_eqb_eq. reflexivity. }
+      apply str_eqb_neq in E6.
+      assert (NF : mem k fwd_keys = false).
+      { unfold mem, fwd_keys. cbn [existsb].
+        repeat match goal with X : k <> _ |- _ => apply str_eqb_neq in X; rewrite ?X end. reflexivity. }
+      destruct (str_eqb k k_cl) eqn:E7.
+      { apply str_eqb_eq in E7. subst k. rewrite (OUT k_cl) by assumption.
+        pose proof (framing_cases _ (te_gone Hhop r)) as FC.
+        assert (CLv : raw_get k_cl (q_hdr (forwarded_gen2 true true (set_hdr r (remove_hop_by_hop (q_hdr r))))) =
+                      raw_get k_cl (after_removal (q_hdr r))) by (apply (r2_get Hhop); left; reflexivity).
+        unfold raw_values in FC. rewrite CLv in FC.
+        destruct (raw_get k_cl (after_removal (q_hdr r))) as [[|v vs]|] eqn:E.
+        - rewrite FC in Hf. injection Hf as <-. rewrite CLv. apply opt_vals_eqb_eq. reflexivity.
+        - destruct (cl_scan [] (flat_map (split_byte 44) (v :: vs))) as [len|] eqn:Es.
+          + rewrite FC in Hf. injection Hf as <-. rewrite raw_get_h_set_same by reflexivity.
+            apply cl_ok_of_scan. exact Es.
+          + rewrite FC in Hf. discriminate.
+        - rewrite FC in Hf. injection Hf as <-. rewrite CLv. apply opt_vals_eqb_eq. reflexivity. }
+      apply str_eqb_neq in E7.
+      rewrite (OUT k) by assumption. rewrite (framing_others _ h3 k Hf) by assumption.
+      rewrite (r2_get Hhop) by (left; exact NF). rewrite (after_removal_get).
+      destruct (is_removed k (q_hdr r)); apply opt_vals_eqb_eq; reflexivity.
+  Qed.
+
+  (* T01_model_satisfies_oracle *)
+  Lemma model_satisfies_oracle tag r :
+    tag_ok tag = true -> q_maj r < 10 -> q_min r < 10 ->
+    (str_eqb (q_method r) m_connect = true \/ tag_ok (client_ip r) = true) ->
+    scase_prop_ok {| s_tag := tag; s_in := r; s_out := result_of (modify_request tag r) |} = true.
+  Proof.
+    intros Ht Hm Hn Hip. unfold scase_prop_ok. cbn [s_in s_out s_tag].
+    destruct (modify_request tag r) as [st|r'] eqn:E; cbn [result_of].
+    - rewrite MP in E.
+      destruct (pipeline_refused Hhop Hst Hcl Hsep Hstatus tag r st Ht E) as [[A ->]|[A ->]].
+      + rewrite A. reflexivity.
+      + rewrite A. apply orb_true_r.
+    - destruct (identity_fields Hflat Hxff Hfill Hvia tag r r' E) as [_ [_ [_ [_ [_ [_ C]]]]]].
+      rewrite C. rewrite Bool.eqb_reflx. cbn [andb]. apply forallb_forall. intros k _.
+      apply key_ok_all; assumption.
+  Qed.
+End Master2.
